@@ -62,8 +62,11 @@ def main():
         from outrank.algorithms import importance_estimator as IE
         import logging
         logging.disable(logging.CRITICAL)
-        for y, x, heuristic, ratio in req['cases']:
-            out.append(float(IE.numba_mi(np.asarray(y, dtype=np.int64), np.asarray(x, dtype=np.int64), heuristic, ratio)))
+        for y, x, heuristic, ratio, *shape in req['cases']:
+            first = np.asarray(y, dtype=np.int64)
+            if shape and shape[0] == 'col':
+                first = first.reshape(-1, 1)          # the (n, 1) array generate_data_for_ranking hands over with --reference_model_JSON
+            out.append(float(IE.numba_mi(first, np.asarray(x, dtype=np.int64), heuristic, ratio)))
     elif mode == 'final':
         # floor(float32(r) * n) exactly as the code computes it (no estimator call)
         for n, r in req['cases']:
